@@ -155,6 +155,35 @@ def run(ctx):
                   'the shutdown path empties children/contexts before it has terminated them: a SIGTERM that arrives while the server is still reaping (e.g. the forced kill of '
                   'server.terminate(timeout) when a child needs its whole grace period) finds nothing to kill - the remaining children outlive the server and their parents block',
                   where=loc(run_f, early[0]) if early else None)
+    # ... and while the server is serving, a child leaves the `children` registry only on evidence that its *process* is gone: both shutdown paths (the
+    # finally loop and the SIGTERM handler) walk that list, so a live child dropped from it outlives the server.  In the accept loop the list is appended
+    # to; a pruning is accepted only as a filter that keeps every child whose is_alive() is true.
+    acc_loops = [n for n in walk_local(run_f.node) if isinstance(n, ast.While) and any(last_attr(c) == 'accept' for c in calls_in(n))]
+    for lp0 in acc_loops:
+        for n in walk_local(lp0):
+            what = None
+            if isinstance(n, ast.Call) and (receiver(n) or '') == 'self.children' and last_attr(n) in ('remove', 'pop', 'clear', '__delitem__', 'discard'):
+                what = n
+            if isinstance(n, ast.Delete) and any('self.children' in norm(tg) for tg in n.targets):
+                what = n
+            if isinstance(n, (ast.Assign, ast.AugAssign)) and any(is_self_attr(tg, 'children') or (isinstance(tg, ast.Subscript) and is_self_attr(tg.value, 'children'))
+                                                                     for tg in (n.targets if isinstance(n, ast.Assign) else [n.target])):
+                v = n.value
+                keeps_alive = False
+                if isinstance(n, ast.Assign) and isinstance(v, ast.ListComp) and len(v.generators) == 1 and norm(v.generators[0].iter) == 'self.children' \
+                        and isinstance(v.generators[0].target, ast.Name) and is_name(v.elt, v.generators[0].target.id) and len(v.generators[0].ifs) == 1:
+                    var = v.generators[0].target.id
+                    from ..astutil import canon as _canon
+                    keeps_alive = _canon(v.generators[0].ifs[0]) == (f'{var}.is_alive()', True)
+                if not keeps_alive:
+                    what = n
+            if what is not None:
+                ctx.check('R1', 'RemoteServer.run: a child leaves the registry of the serving loop only when its process is dead', False, 'RemoteServer.run',
+                          f'child-dropped-from-registry:{norm(what)[:70]}',
+                          f'`{short(what)}` takes children out of self.children while the server is serving on a criterion other than the death of the child process: a live '
+                          'child that is no longer listed is reaped neither by the shutdown loop nor by the SIGTERM handler - it outlives the server and its parent never finds out',
+                          where=loc(run_f, what))
+    ctx.ob('R1', f'the accept loop only appends to self.children ({len(acc_loops)} loop)', bool(acc_loops))
     for r in sorted(regs):
         ctx.check('R1', f'RemoteServer.run: the shutdown loop covers the registry `{r}`', r in covered, 'RemoteServer.run', f'registry-not-reaped:{r}',
                   f'children registered in `{r}` are not terminated when the server stops: their processes outlive it and their parents never find out', where=loc(run_f, t))
